@@ -62,7 +62,8 @@ def make_empty_pagexml(metadata: Dict[str, any] = None, imageFilename: str = '',
         for field in ['Creator', 'Created', 'LastChange']:
             if field in metadata:
                 field_xml = add_pagexml_sub_element(metadata_ele, field)
-                field_xml.text = metadata[field]
+                # (the parser reads an all-digit value, e.g. a creator '2024', as an int)
+                field_xml.text = str(metadata[field])
     if page_attributes is None:
         page_attributes = {
             'imageFilename': imageFilename,
